@@ -11,6 +11,7 @@ C++ is expected to follow (stale = flag written only on creation, the code as fo
 on every retrieval). SPECFAIL decisions never depend on it (the requested meaning is always the
 fixed semantics); it only selects the model used for the exact structural comparison.
 -/
+import AdaptaVerif.Model.TglfIds
 import Driver.Proto
 import AdaptaVerif.Model.Sep
 namespace Driver.C18
@@ -567,6 +568,24 @@ def checkTglf (implFixed : Bool) (fine : Bool) (c : Case) : CaseResult := Id.run
     let itxt := sepLines.toList.map fun l => " ".intercalate l.toList
     if mtxt != itxt then acc := acc.diverge s!"SEPCO section: impl {itxt} model {mtxt}"
     acc := acc.bump "tglf.sepco.lines" mls.length
+  -- node ids: Model/TglfIds.lean (Props/C18Ids.written_ids_injective) vs the NODES section of the written text
+  let useExt := ((c.get1 "useext").bind (·[0]?)) == some "1"
+  let nids := (c.get "nid").map fun l => nat! l[1]!
+  if nids.size == nodes.size then
+    let ns : List AdaptaVerif.Model.TglfIds.NodeId :=
+      (List.range nodes.size).map fun i => { id := nids[i]!, ext := nodes[i]!.ext }
+    let mids := AdaptaVerif.Model.TglfIds.writtenIds useExt ns
+    let wids : List Int := (List.range nodeLines.size).map fun i => (writtenId i : Int)
+    if useExt && ns.any (fun n => n.ext < 0) && ns.any (fun n => n.ext ≥ 0) then
+      acc := acc.bump "tglf.ids.mixed"
+      if AdaptaVerif.Model.TglfIds.firstLacking ns ≤ AdaptaVerif.Model.TglfIds.maxExt ns + 1 then acc := acc.bump "tglf.ids.mixed.near-tie"
+    if !decide wids.Nodup then
+      acc := acc.specfail s!"tglf round trip: Graph::writeTglf wrote two nodes under one id: internal ids {nids.toList}, external ids {ns.map (·.ext)}, written ids {wids} (model: {mids})"
+    else if mids != wids then
+      acc := acc.diverge s!"Graph::writeTglf node ids: impl {wids} model {mids} (internal {nids.toList}, external {ns.map (·.ext)})"
+  match c.get1 "readback" with
+  | some l => acc := acc.specfail s!"tglf round trip: buildGraphFromTglf threw on the text Graph::writeTglf produced: {l}"; return acc.result false
+  | none => pure ()
   -- graph read back
   let mut nodes2 : Array NodeG := #[]
   for l in c.get "node2" do
